@@ -5,7 +5,7 @@ import msref, refserver
 
 RULE = ("server without RENAMESCRIPT (no VERSION capability): every initial state class (old / new name absent, present, active; a bystander "
         "script; bodies with LF, CRLF, CR, no final newline, protocol look-alike lines) × every fault placement (LISTSCRIPTS, GETSCRIPT, "
-        "PUTSCRIPT, SETACTIVE, DELETESCRIPT answered NO, BYE or not at all; none) × reply encodings chosen by PRNG, against the reference "
+        "PUTSCRIPT, SETACTIVE, DELETESCRIPT answered NO, BYE or not at all — the command either not executed or executed with its reply lost; none) × reply encodings chosen by PRNG, against the reference "
         "server; the store before/after is compared; every call is replayed on the Lean model; non-trivial = old script present")
 
 BODIES = [b"keep;\r\n", b"line1\nline2\n", b"a\r\nb", b"OK\r\nNO\r\n{3}\r\n", b"", b"x\ry\r\n", b"\xc3\xa9\r\n"]
@@ -60,7 +60,7 @@ def run(ctx):
                 continue
             for by in (False, True):
                 states.append((o, n, by))
-    faults = [None] + [(st, f) for st in STEPS for f in ("NO", "BYE", "SILENT")]
+    faults = [None] + [(st, f) for st in STEPS for f in ("NO", "BYE", "SILENT", "LOST")]
     reps = 2 if ctx.tier == "quick" else 12
     for (o, n, by), fault in itertools.product(states, faults):
         for rep in range(reps):
